@@ -19,7 +19,7 @@ import (
 	"zogverif/zh"
 )
 
-var c20Alphabet = []string{"/", "0", "9", ":", "@", "A", "Z", "[", "`", "a", "z", "{", "~", "\x7f", " ", "!", "é", "Ä", "１", ".", "-", "€", "«", "—"}
+var c20Alphabet = []string{"/", "0", "9", ":", "@", "A", "Z", "[", "`", "a", "z", "{", "~", "\x7f", " ", "!", "é", "Ä", "１", ".", "-", "€", "«", "—", "ſ", "\u212a", "İ"}
 
 // chooseString enumerates every string over alpha with at most maxLen symbols.
 func chooseString(x *mc.X, alpha []string, maxLen int, label string) string {
@@ -872,7 +872,7 @@ func c20Grammar(name, code string, build func(s *z.StringSchema[string], not boo
 const c20BaseUUID = "01234567-89ab-cdef-ABCD-EF0123456789"
 
 func c20UUIDGen(pairs bool) func(x *mc.X) string {
-	muts := []string{"g", "G", "-", "0", "f", "F", "/", ":", "@", "`", "{", " ", "é"}
+	muts := []string{"g", "G", "-", "0", "f", "F", "/", ":", "@", "`", "{", " ", "é", "ſ", "\u212a"}
 	return func(x *mc.X) string {
 		b := c20BaseUUID
 		op := x.Choose(5, "op") // 0 none, 1 substitute, 2 insert, 3 delete, 4 substitute two
@@ -914,9 +914,9 @@ func init() {
 		Floor: 100,
 		Bound: func(tier string) string {
 			if tier == "thorough" {
-				return "general strings ≤4 symbols over 24-symbol boundary alphabet (ASCII class edges, multi-byte letters/digits, non-ASCII punctuation and symbols); email/url grammar strings ≤7 symbols; uuid: all single and double substitutions, insertions, deletions; numeric n×v over boundary sets of all 5 types; time ±1ns in 2 zones and against values carrying a monotonic clock reading; slices len 0..3"
+				return "general strings ≤4 symbols over 27-symbol boundary alphabet (ASCII class edges, multi-byte letters/digits, non-ASCII punctuation and symbols, runes that fold to ASCII letters under Unicode case folding); email/url grammar strings ≤7 symbols; uuid: all single and double substitutions, insertions, deletions; numeric n×v over boundary sets of all 5 types; time ±1ns in 2 zones and against values carrying a monotonic clock reading; slices len 0..3"
 			}
-			return "general strings ≤3 symbols over 24-symbol boundary alphabet (ASCII class edges, multi-byte letters/digits, non-ASCII punctuation and symbols); email/url grammar strings ≤5 symbols; uuid: all single substitutions, insertions, deletions; numeric n×v over boundary sets of all 5 types; time ±1ns in 2 zones and against values carrying a monotonic clock reading; slices len 0..3"
+			return "general strings ≤3 symbols over 27-symbol boundary alphabet (ASCII class edges, multi-byte letters/digits, non-ASCII punctuation and symbols, runes that fold to ASCII letters under Unicode case folding); email/url grammar strings ≤5 symbols; uuid: all single substitutions, insertions, deletions; numeric n×v over boundary sets of all 5 types; time ±1ns in 2 zones and against values carrying a monotonic clock reading; slices len 0..3"
 		},
 		Assumptions: []string{
 			"reference predicates are the documented ones (len() in bytes, Go comparisons, strings.*, ASCII classes, stated grammars); URL reference uses net/url itself (scheme and host non-empty)",
@@ -940,7 +940,8 @@ func init() {
 					items = append(items, Item{Name: "siblings/Not." + t.name, Run: c20SiblingItem(t, true, c20Alphabet), MaxDevs: -1})
 				}
 			}
-			emailAlpha := []string{"a", "1", "@", ".", "-", "+", "_"}
+			// "ſ" (U+017F) and "K" (U+212A, Kelvin) fold to s and k under Unicode case folding: they are not ASCII letters
+			emailAlpha := []string{"a", "1", "@", ".", "-", "+", "_", "ſ", "\u212a"}
 			items = append(items, Item{Name: "grammar/Email", MaxDevs: -1, Run: c20Grammar("Email", "email", func(s *z.StringSchema[string], not bool) *z.StringSchema[string] {
 				if not {
 					return s.Not().Email()
